@@ -76,7 +76,7 @@ CONTEXTS = ['default', 'custom', 'custom-nofallback', 'bare']
 # ---------------------------------------------------------------------------
 # alphabets (symbols may be multi-character)
 
-SYM_CORE = ['a', ' ', '\n', '\\', '{', '}', '[', ']', '$', '%', '~', '-', '&', '*', '\r\n']
+SYM_CORE = ['a', ' ', '\n', '\\', '{', '}', '[', ']', '$', '%', '~', '-', '&', '*', '\r\n', '\r', '\x0c']   # bare CR and form feed are whitespace too
 SYM_MULTI = ['\\(', '\\)', '\\[', '\\]', '\\begin{e}', '\\end{e}', '\\m']
 SYM_DEFAULT_EXTRA = ['\\textbf', '\\frac', '\\item', '\\\\', '\\verb', '|', '\\begin{itemize}', '\\end{itemize}',
                      '\\begin{equation}', '\\end{equation}', '\\begin{verbatim}', '\\end{verbatim}', '$$', '\n\n',
